@@ -12,7 +12,8 @@ EXPLANATION = (
     "80→85→90→95→100, the last step being refresh_no_more (100); (c) the refresh functions run on every loop "
     "iteration for every browsed type / open resolver and all returned times are armed; (d) eviction on every iteration "
     "(C05b); (e) the cache-flush one-second rule (C03e).  Decides that the code computes these formulas and visits them "
-    "every iteration, not when something happens for a given TTL and observation sequence.")
+    "every iteration, not when something happens for a given TTL and observation sequence."
+    " (f) A matched cached record always gets reset_ttl(incoming).")
 UNDECIDED = ["when something happens for a given TTL and observation sequence (skipped marks, restart after an answer, u32::MAX TTLs) — run-time quantities",
              "that a fresh copy restarts the schedule as a trace property (only reset_ttl's formula is decided)"]
 
@@ -206,6 +207,8 @@ def clause_c(ctx, P):
 
 
 def run(ctx, P):
+    from . import r2
+    r2.cache_update_rules(ctx, P, "C11f", want=("reset",))
     clause_a(ctx, P)
     clause_b(ctx, P)
     clause_c(ctx, P)
